@@ -5,6 +5,8 @@ SPEC = {
     "tests": [
         {"name": "TestEquivalence", "quick": 2400, "thorough": 96000, "shards_quick": 8, "shards_thorough": 16, "timeout": 2400},
         {"name": "TestLocals", "quick": 1600, "thorough": 64000, "shards_quick": 8, "shards_thorough": 16, "timeout": 2400},
+        {"name": "TestConcurrentLoads", "quick": 64, "thorough": 480, "shards_quick": 8, "shards_thorough": 16, "timeout": 2400,
+         "race_thorough": True, "replay_repeat": 50},
         {"name": "TestKnownWitness", "quick": 1, "thorough": 1, "shards": 1, "timeout": 120},
     ],
     # thorough tier: coverage-guided campaigns over the same generators + oracles (rapid.MakeFuzz)
@@ -17,7 +19,8 @@ SPEC = {
              "var/xpath, var/header, assert/response with optional headers / body / status_code / size{val?, op}) or calls (call, "
              "payload, optional tag / metadata, 0-2 prepare preprocessors, 0-2 assert/response postprocessors with optional payload / "
              "status_code); 1-3 scenarios with optional weight (1-6 times a common factor) and min_waiting_time and 1-6 step entries in "
-             "the forms name, name(n), name(n, ms), name(n,ms), sleep(ms). Half of the free-text strings (values, map keys, 35% of the "
+             "the forms name, name(n), name(n, ms), name(n,ms), sleep(ms); one written weight in five is `weight = 0` / `weight: 0`, the "
+             "lower bound of the allowed range (it counts as 1, like a weight that is left out), also for the only scenario of a file. Half of the free-text strings (values, map keys, 35% of the "
              "names) are concatenations of 1-3 pieces from the classes quotes, backslashes, newlines/CR/tab, unicode (incl. U+2028, "
              "U+0085, BOM, astral), `%{` / unterminated `${` / `$${`, YAML-special scalars (yes, null, ~, 1e3, 0x1F, `- a`, `#c`, "
              "`a: b`, `<<`, timestamps, base-60, leading/trailing blanks, empty), control characters, go-template text; all NFC, "
@@ -36,6 +39,19 @@ SPEC = {
              "continued after each \\n with a trailing backslash). A hand-written scalar is kept only if yaml.v2's own Unmarshal reads "
              "the file back exactly as it reads the Marshal form (e.g. CR, NEL, control characters cannot be said in a block "
              "scalar); otherwise the Marshal form is written and the case counts yaml_style_fallback. "
+             "Key order of x.yaml: in 75% of the descriptions every mapping with fixed keys (the document, sources, requests, calls, "
+             "processors, size, scenarios) is written in a uniformly drawn key order with 60% (so `scenarios:` is not the last section in "
+             "about half of the files); 40% of those put the bulky part last: `requests:` / `calls:` is the last section and its last "
+             "entry ends with a string value (body / payload in 85% when present), written as a `|` / `>` block scalar in 70% - the "
+             "document then ENDS inside a block scalar, which owns the final line break(s) of the file (clip: exactly one, `+`: all). "
+             "End of file: three files in seven (each syntax separately) end without the final newline, with two blank lines or with a "
+             "`#` comment line; for x.yaml only where yaml.v2 reads the file as before (else yaml_tail_fallback). "
+             "TestConcurrentLoads: 3-6 different descriptions (30% with locals), each in both syntaxes in its own directory, are first "
+             "read alone (reference, checked like a TestEquivalence case incl. delivered ammo) and then loaded 4 (thorough 12) times each by 12-24 "
+             "goroutines released together in a process with GOMAXPROCS=4 (3-6 loaders per processor, so that loaders are descheduled "
+             "in the middle of a conversion and another one continues on the same processor): two loaders in three read the .hcl file, "
+             "one in three the .yaml file; three in four call config.ReadAmmoConfig, one in four builds the provider and takes one weight "
+             "cycle plus one item; the thorough tier runs it under the race detector. "
              "TestLocals additionally writes 1-3 `locals` blocks (later ones refer to earlier ones; a local may be re-declared with "
              "the same value, or given a new value by a later block, also one built from its old value) and ~40% of the map / list / string attributes as expressions (depth <= 3) over local.* references, the 17 "
              "documented functions and quoted templates with ${} interpolation, built so that the documented preconditions hold "
@@ -74,6 +90,20 @@ SPEC = {
         "TestEquivalence/yaml_plain_multiline": 0.02, "TestEquivalence/yaml_single_quoted_multiline": 0.05,
         "TestEquivalence/yaml_double_quoted_multiline": 0.015, "TestEquivalence/yaml_double_quoted_literal_tab": 0.015,
         "TestEquivalence/yaml_style_fallback": 0.05,
+        # classes added after seeded defects C16/m7-m9
+        "TestEquivalence/weight_zero": 0.12, "TestEquivalence/weight_zero_only_scenario": 0.012, "TestEquivalence/weight_zero_among_several": 0.1,
+        "TestEquivalence/yaml_key_order_permuted": 0.5, "TestEquivalence/yaml_scenarios_section_not_last": 0.28,
+        "TestEquivalence/yaml_body_or_payload_last_key": 0.25, "TestEquivalence/yaml_ends_with_block_scalar": 0.13,
+        "TestEquivalence/yaml_ends_with_block_scalar_owning_final_newline": 0.035, "TestEquivalence/yaml_ends_with_block_scalar_clip": 0.02,
+        "TestEquivalence/yaml_ends_with_block_scalar_keep": 0.015, "TestEquivalence/yaml_ends_with_block_scalar_keep_blank_lines": 0.006,
+        "TestEquivalence/yaml_ends_with_folded": 0.04, "TestEquivalence/yaml_ends_with_body_or_payload_block": 0.07,
+        "TestEquivalence/yaml_tail_nonl": 0.07, "TestEquivalence/yaml_tail_blank": 0.07, "TestEquivalence/yaml_tail_comment": 0.07,
+        "TestEquivalence/hcl_tail_nonl": 0.07, "TestEquivalence/hcl_tail_blank": 0.07, "TestEquivalence/hcl_tail_comment": 0.07,
+        "TestLocals/weight_zero": 0.12, "TestLocals/yaml_scenarios_section_not_last": 0.28, "TestLocals/yaml_ends_with_block_scalar": 0.12,
+        "TestLocals/yaml_ends_with_block_scalar_owning_final_newline": 0.03,
+        "TestConcurrentLoads/conc_all_descriptions_differ": 0.6, "TestConcurrentLoads/conc_http_and_grpc": 0.4,
+        "TestConcurrentLoads/conc_hcl_over_2k": 0.3, "TestConcurrentLoads/conc_loaders_5_per_processor_or_more": 0.2,
+        "TestConcurrentLoads/conc_40_hcl_loads_or_more": 0.4, "TestConcurrentLoads/conc_12_provider_builds_or_more": 0.6,
         "TestLocals/yaml_literal": 0.4, "TestLocals/yaml_folded": 0.3, "TestLocals/yaml_block_line_starts_with_tab": 0.08,
         "TestLocals/yaml_block_first_line_starts_with_tab": 0.04,
         "TestLocals/fn_coalesce": 0.05, "TestLocals/fn_coalescelist": 0.05, "TestLocals/fn_compact": 0.05, "TestLocals/fn_concat": 0.2,
@@ -90,11 +120,15 @@ SPEC = {
                       "description and a reference evaluator for the HCL-only expressions"),
         "text": ("For every generated description config.ReadAmmoConfig(x.hcl) and config.ReadAmmoConfig(x.yaml) must both succeed and "
                  "be equal under a normalising comparison (nil = empty map/slice, pointers by value, exported fields only, dynamic "
-                 "types of processors / templaters / sources kept); the HCL result must also equal the configuration the description "
-                 "states field by field (nothing lost or altered by the struct -> YAML text -> map -> decoder hop); and the real "
+                 "types of processors / templaters / sources kept); each of the two results must also equal the configuration the description "
+                 "states field by field (nothing lost or altered by the struct -> YAML text -> map -> decoder hop, nor by the way the "
+                 "file is read: body / payload text incl. its final line breaks); and the real "
                  "http/scenario / grpc/scenario providers built through config decoding from the two files must deliver, over one "
                  "full weight cycle plus one item, ammo that is identical as the guns see it (id, scenario name, min waiting time, "
-                 "every step with all request / call fields, processors, templater type, sleeps, variable storage via Variables())."),
+                 "every step with all request / call fields, processors, templater type, sleeps, variable storage via Variables()). "
+                 "TestConcurrentLoads: every configuration / every ammo list obtained while other goroutines convert other descriptions "
+                 "must be the one the same file gives when it is loaded alone (hence the one of its twin in the other syntax and the one "
+                 "the description states); no load may fail; no data race (thorough)."),
         "note": ("Values produced by randomisation functions in `variables` sources are masked (they are random by design). The HCL "
                  "`headers` argument is required by the HCL front-end, so a request without headers is written `headers = {}` there "
                  "and left out in YAML. coalesce() is only called with null or non-empty arguments (the linked documentation and the "
@@ -102,14 +136,17 @@ SPEC = {
                  "`index` is bound to element access instead of the documented search; bare numbers / booleans in a `variables` "
                  "source become strings in HCL only) are steered around by redrawing while listed as known and re-confirmed by fixed "
                  "witnesses in TestKnownWitness (which also runs the documentation's own HCL / YAML example); while index() is "
-                 "excluded no generated case calls it. Of the YAML layout only the scalar styles of string values vary (block, plain, "
-                 "single- and double-quoted by hand); keys, the block structure and numbers are as yaml.v2 writes them (no flow "
+                 "excluded no generated case calls it. Of the YAML layout the scalar styles of string values (block, plain, "
+                 "single- and double-quoted by hand), the order of the keys of the mappings with fixed keys and the end of the file vary; "
+                 "the order inside user maps (headers, mapping, ...), keys, the block structure and numbers are as yaml.v2 writes them (no flow "
                  "collections, no indented sequences, no comments), and HCL strings are quoted or `<<EOT` heredocs (no `<<-`). The "
                  "native byte-mutation campaign of the design, YAML anchors / the YAML `locals` helper block and HCL comment / "
                  "CRLF layouts are not implemented."),
     },
     "assumptions": [
         "locals blocks are evaluated in file order and a name assigned again by a later block means the later value from then on (the documentation only shows re-declaration with the same value)",
+        "ReadAmmoConfig / ConvertHCLToAmmo / ParseAmmoConfig may be called from several goroutines at once (providers are built by embedding applications, parallel tests and per-pool constructors; nothing documents a one-caller restriction): what a file means does not depend on what else the process converts at that moment",
+        "the interleavings of TestConcurrentLoads are those the Go scheduler produces with 3-6 busy loaders per processor (GOMAXPROCS=4); the race detector (thorough) reports unsynchronised sharing also where no visible difference resulted",
         "all cases of a process rewrite the same file names: a front-end may not remember anything by file name",
         "strings are NFC-normalised: HCL normalises string values to NFC by specification, so other strings are not expressible in both syntaxes",
         "complete ${...} sequences are not generated (placeholder language of the config layer, property C17)",
